@@ -4,6 +4,7 @@ import SlocModel.Driver.Counter
 import SlocModel.Driver.Toml
 import SlocModel.Driver.Trend
 import SlocModel.Driver.Baseline
+import SlocModel.Driver.Structure
 open SlocModel.Driver
 
 def dispatch (line : String) : String :=
@@ -25,6 +26,13 @@ def dispatch (line : String) : String :=
       | "trend-delta" => handleTrendDelta args
       | "duration" => handleDuration args
       | "baseline-step" => handleBaselineStep args
+      | "struct-dir" => handleStructDir args
+      | "walk" => handleWalk args
+      | "base-depth" => handleBaseDepth args
+      | "place-file" => handlePlaceFile args
+      | "place-dir" => handlePlaceDir args
+      | "sib-directed" => handleSibDirected args
+      | "sib-group" => handleSibGroup args
       | "extends" => handleExtends args
       | "merge" => handleMerge args
       | "finish" => handleFinish args
